@@ -21,7 +21,7 @@ import steps_gen as G
 from common import Infra, ModelErr
 
 PROP = "C11"
-CLAIMED = False
+CLAIMED = True
 ENGINE = "Steps"
 DESIGN_REF = "DESIGN.md §5.3"
 TECHNIQUE = (
